@@ -33,7 +33,7 @@ Definition corr_gen (c : rcase) : bool := gen_corr (r_g c).
 
 Definition corr_serde (c : rcase) : bool :=
   match model_items c with
-  | None => false
+  | None => match r_vectors c with [] => true | _ => false end   (* a rejected program has no vectors *)
   | Some items =>
       (* a module that rustc refuses is C02's subject: nothing to compare *)
       forallb (fun v => match v_obs v with
